@@ -159,9 +159,9 @@ def _small_c08(args):
                         continue
                     c = consts[k % len(consts)]
                     out.append(x_arith.observe_const(fx, np, [pid], op, tx, xs, c, side, ois, cs, MODES[k % 10],
-                                                     method='raw' if k % 2 else 'repr'))
-    for op in ('neg', 'pos', 'abs'):
-        out.append(x_arith.observe_unary(fx, np, [pid], op, tx, xs, MODES[(idx) % 10]))
+                                                     method='raw' if k % 2 else 'repr', history=(k % 4 == 1)))
+    for j, op in enumerate(('neg', 'pos', 'abs')):
+        out.append(x_arith.observe_unary(fx, np, [pid], op, tx, xs, MODES[(idx) % 10], ois=['same', 'best'][(idx + j) % 2]))
     return _tag(out)
 
 
@@ -283,8 +283,9 @@ def _wide_c08(args):
                                              target=rng.choice(['out', 'out_like']), tfmt=tf, tmodes=m3))
         c = F(rng.randint(-64, 64), 1 << rng.randint(0, 5))
         out.append(x_arith.observe_const(fx, np, [pid], op, tx, a, c, rng.choice(['left', 'right']), rng.choice(['same', 'best']),
-                                         rng.choice(['same', 'optimal', 'largest', 'smallest']), m1, method=rng.choice(['raw', 'repr'])))
-        out.append(x_arith.observe_unary(fx, np, [pid], rng.choice(['neg', 'pos', 'abs']), tx, a, m1))
+                                         rng.choice(['same', 'optimal', 'largest', 'smallest']), m1, method=rng.choice(['raw', 'repr']),
+                                         history=rng.random() < 0.4))
+        out.append(x_arith.observe_unary(fx, np, [pid], rng.choice(['neg', 'pos', 'abs']), tx, a, m1, ois=rng.choice(['same', 'best'])))
     return [r for r in out if r is not None]
 
 
